@@ -80,6 +80,7 @@ type checker struct {
 	alpha    []letter
 	specs    []rspec
 	mapOrder bool
+	noWarmup bool
 }
 
 // runHistory executes a history on a fresh bundle, evaluating the property's
@@ -92,6 +93,28 @@ func (c *checker) runHistory(h []int, all bool) (key string, what string, pruned
 	defer b.close()
 	b.mapOrder = c.mapOrder
 	prevSupply := c.w.doc.Staking.TotalSupply.ToBigInt()
+	// Runtime genesis: empty blocks until the first executor committee exists (start of epoch 2),
+	// so that the explored letters meet a live runtime. Part of the initial state, not of the history.
+	if c.w.opts.Runtime && !c.noWarmup {
+		iv := c.w.opts.EpochInterval
+		if iv == 0 {
+			iv = 3
+		}
+		for i := int64(0); i < 2*iv; i++ {
+			out, err := b.exec(&c.alpha[0])
+			if err != nil {
+				return "", "harness: " + err.Error(), false
+			}
+			if out.results[0].Panic != "" {
+				return "", "harness: warm-up block failed: " + out.results[0].Panic, false
+			}
+		}
+		if c.prop == "C05" {
+			if s, w := supplyInvariants(b.ref()); w == "" {
+				prevSupply = s
+			}
+		}
+	}
 	for i, li := range h {
 		l := &c.alpha[li]
 		out, err := b.exec(l)
@@ -220,14 +243,25 @@ func timelinePhase(r *ev.Run, c *checker, vi int, profile string, opts chain.Gen
 	if c.prop == "C01" && !r.Thorough() {
 		positions = []int{1, 3}
 	}
-	type job struct{ pos, li int }
+	type job struct{ pos, li, filler int }
 	var jobs []job
-	for _, p := range positions {
-		for li := range c.alpha {
-			if li == 0 && p != positions[0] {
-				continue // the all-empty timeline once
+	fillers := []int{0}
+	if opts.Runtime {
+		// a live runtime: every other block finalizes a runtime round
+		for i, l := range c.alpha {
+			if l.Round != nil && l.Round.Who == "all" && l.Round.Msgs == "" && l.Round.InMsgs == "" {
+				fillers = append(fillers, i)
 			}
-			jobs = append(jobs, job{p, li})
+		}
+	}
+	for _, f := range fillers {
+		for _, p := range positions {
+			for li := range c.alpha {
+				if li == f && p != positions[0] {
+					continue // the uniform timeline once
+				}
+				jobs = append(jobs, job{p, li, f})
+			}
 		}
 	}
 	ev.ParallelRange(len(jobs), r.Seed, func(ji int) {
@@ -237,6 +271,9 @@ func timelinePhase(r *ev.Run, c *checker, vi int, profile string, opts chain.Gen
 		}
 		j := jobs[ji]
 		h := make([]int, n)
+		for i := range h {
+			h[i] = j.filler
+		}
 		h[j.pos] = j.li
 		_, what, pruned := c.runHistory(h, true)
 		r.Add("timeline_histories", 1)
@@ -253,8 +290,8 @@ func timelinePhase(r *ev.Run, c *checker, vi int, profile string, opts chain.Gen
 		for _, i := range h {
 			ln = append(ln, c.alpha[i].Name)
 		}
-		r.Violate(ev.Violation{Engine: "chainmc", Key: fmt.Sprintf("%s genesis#%d timeline[%d blocks, %s at %d]", strings.ToLower(c.prop), vi, n, c.alpha[j.li].Name, j.pos),
-			What:     fmt.Sprintf("genesis variant %d, timeline of %d blocks with [%s] at position %d and empty blocks elsewhere: %s", vi, n, c.alpha[j.li].Name, j.pos, what),
+		r.Violate(ev.Violation{Engine: "chainmc", Key: fmt.Sprintf("%s genesis#%d timeline[%d blocks of %s, %s at %d]", strings.ToLower(c.prop), vi, n, c.alpha[j.filler].Name, c.alpha[j.li].Name, j.pos),
+			What:     fmt.Sprintf("genesis variant %d, timeline of %d blocks with [%s] at position %d and [%s] elsewhere: %s", vi, n, c.alpha[j.li].Name, j.pos, c.alpha[j.filler].Name, what),
 			Artefact: histArtefact{Property: c.prop, Profile: profile, Genesis: opts, History: h, Letters: ln}})
 	})
 	r.Set("timeline_blocks", n)
@@ -283,12 +320,12 @@ func runHistories(r *ev.Run) {
 		// a compute runtime served by all nodes, one node expiring while it sits in the committee;
 		// debonding interval 1 and 2 (expired nodes are removed after the debonding interval)
 		variants = append(variants,
-			chain.GenesisOptions{Runtime: true, RtGroupSize: 3, EpochInterval: 1, NodeExpirations: []uint64{12, 4, 12}},
-			chain.GenesisOptions{Runtime: true, RtGroupSize: 2, RtBackupSize: 1, EpochInterval: 1, NodeExpirations: []uint64{12, 12, 5}, DebondingInterval: 2},
-			chain.GenesisOptions{Runtime: true, RtGroupSize: 2, EpochInterval: 2, NodeExpirations: []uint64{3, 12, 12}, RtMaxInMessages: 2})
+			chain.GenesisOptions{Runtime: true, RtGroupSize: 3, EpochInterval: 2, NodeExpirations: []uint64{40, 3, 40}},
+			chain.GenesisOptions{Runtime: true, RtGroupSize: 2, RtBackupSize: 1, EpochInterval: 3, NodeExpirations: []uint64{40, 40, 2}, DebondingInterval: 2},
+			chain.GenesisOptions{Runtime: true, RtGroupSize: 2, EpochInterval: 2, NodeExpirations: []uint64{3, 40, 40}, RtMaxInMessages: 2})
 	}
 	if prop == "C05" || prop == "C01" {
-		variants = append(variants, chain.GenesisOptions{Runtime: true, RtGroupSize: 2, EpochInterval: 1, NodeExpirations: []uint64{12, 4, 12}})
+		variants = append(variants, chain.GenesisOptions{Runtime: true, RtGroupSize: 2, RtBackupSize: 1, EpochInterval: 3, NodeExpirations: []uint64{40, 3, 40}})
 	}
 	if prop == "C01" {
 		// all entities tied and the validator limit cutting into the tie: any order-dependent
@@ -313,6 +350,22 @@ func runHistories(r *ev.Run) {
 			os.Exit(2)
 		}
 		c := &checker{prop: prop, w: w, alpha: w.alphabet(a.Profile), specs: bundleSpecs(prop, true), mapOrder: a.MapOrder}
+		if len(a.History) == 0 && len(a.Letters) > 0 {
+			// hand-written artefact: letters by name
+			for _, nm := range a.Letters {
+				found := false
+				for i, l := range c.alpha {
+					if l.Name == nm {
+						a.History = append(a.History, i)
+						found = true
+					}
+				}
+				if !found {
+					fmt.Println("replay: unknown letter", nm)
+					os.Exit(2)
+				}
+			}
+		}
 		_, what, _ := c.runHistory(a.History, true)
 		if what != "" {
 			fmt.Printf("VIOLATION property=%s replay=%s\n  what: %s\n", prop, r.Replay, what)
